@@ -72,10 +72,60 @@ func rotationOrder(c *Check) {
 		}
 		c.Fn(funcDisplayName(s.fn))
 		r := NewResolver(p)
+		// a comparator that only delegates to a named function of the
+		// package, less(i,j) = F(s[i], s[j]): F is the comparator, its
+		// parameters standing for the elements i and j
+		cmpFn := s.fn
+		first, second := "P("+s.fn.Params[0].Name()+")", "P("+s.fn.Params[1].Name()+")"
+		{
+			var del *ssa.Call
+			nret, okDel := 0, true
+			allInstrs(s.fn, func(in ssa.Instruction) {
+				ret, ok := in.(*ssa.Return)
+				if !ok {
+					return
+				}
+				nret++
+				cl, isCall := ret.Results[0].(*ssa.Call)
+				if !isCall || len(ret.Results) != 1 {
+					okDel = false
+					return
+				}
+				sc := staticCallee(cl.Common())
+				if sc == nil || !InRepo(sc) || sc.Blocks == nil || len(sc.Params) != 2 || len(cl.Call.Args) != 2 {
+					okDel = false
+					return
+				}
+				del = cl
+			})
+			if okDel && nret == 1 && del != nil {
+				elem := func(v ssa.Value) string {
+					o := r.Of(v)
+					if o.K == "index" {
+						return trimOrg(o.Sub[1].String())
+					}
+					return trimOrg(o.String())
+				}
+				a0, a1 := elem(del.Call.Args[0]), elem(del.Call.Args[1])
+				sc := staticCallee(del.Common())
+				switch {
+				case a0 == first && a1 == second:
+					cmpFn = sc
+					first, second = "P("+sc.Params[0].Name()+")", "P("+sc.Params[1].Name()+")"
+				case a0 == second && a1 == first:
+					cmpFn = sc
+					first, second = "P("+sc.Params[1].Name()+")", "P("+sc.Params[0].Name()+")"
+				}
+				if cmpFn != s.fn {
+					c.Fn(funcDisplayName(cmpFn))
+					name += " (delegating to " + cmpFn.Name() + ")"
+				}
+			}
+		}
 		var intCmp *ssa.BinOp
 		var parser *ssa.Function
 		nStrOnly := 0
-		allInstrs(s.fn, func(in ssa.Instruction) {
+		allInstrs(cmpFn, func(in ssa.Instruction) {
 			ret, ok := in.(*ssa.Return)
 			if !ok || len(ret.Results) != 1 {
 				return
@@ -113,7 +163,6 @@ func rotationOrder(c *Check) {
 			}
 			return trimOrg(ao.String())
 		}
-		first, second := "P("+s.fn.Params[0].Name()+")", "P("+s.fn.Params[1].Name()+")"
 		desc := (intCmp.Op == token.GTR && argIdx(xo) == first && argIdx(yo) == second) || (intCmp.Op == token.LSS && argIdx(xo) == second && argIdx(yo) == first)
 		c.Cond(desc, "rotation-order-numeric", name+": numeric comparison", p.InstrPos(intCmp), "less(i,j) = number(i) > number(j): larger rotation numbers (older files) first", "the numeric comparison orders the files newest first (or compares the wrong elements)")
 		// the integer comparison is used when both numbers are available and differ
@@ -371,6 +420,20 @@ func lineReader(c *Check) {
 			if !okHi || !lo {
 				okStrip = false
 				whySt = "the delivered text is not the line minus exactly its last byte"
+			}
+		case "call":
+			// strings.TrimSuffix(line, "\n"): removes exactly one newline, the
+			// one the framing read guarantees on its nil-error edge
+			cl, isCall := a.V.(*ssa.Call)
+			okTrim := false
+			if isCall && a.Name == "strings.TrimSuffix" && len(cl.Call.Args) == 2 && strip(cl.Call.Args[0]) == line {
+				if s, isK := constStr(cl.Call.Args[1]); isK && s == "\n" {
+					okTrim = true
+				}
+			}
+			if !okTrim {
+				okStrip = false
+				whySt = "the delivered text is " + trimOrg(a.String()) + " (the newline is not stripped, or more than the newline is removed)"
 			}
 		default:
 			okStrip = false
@@ -739,8 +802,8 @@ func initialThenEvents(c *Check) {
 		for _, g := range GuardsOf(cl) {
 			a := atomsOf(g)
 			b, ok := a.V.(*ssa.BinOp)
-			if !ok || b.Op != token.EQL || !a.Pos {
-				continue
+			if !ok || !((b.Op == token.EQL && a.Pos) || (b.Op == token.NEQ && !a.Pos)) {
+				continue // not known to be equal on this path
 			}
 			xo, yo := r.Of(b.X), r.Of(b.Y)
 			if (xo.K == "field" && xo.Name == "filePath") || (yo.K == "field" && yo.Name == "filePath") {
@@ -767,8 +830,8 @@ func initialThenEvents(c *Check) {
 			for _, g := range GuardsOf(tail) {
 				a := atomsOf(g)
 				b, ok := a.V.(*ssa.BinOp)
-				if !ok || b.Op != token.EQL || !a.Pos {
-					continue
+				if !ok || !((b.Op == token.EQL && a.Pos) || (b.Op == token.NEQ && !a.Pos)) {
+					continue // not known to be equal on this path
 				}
 				xo, yo := r.Of(b.X), r.Of(b.Y)
 				if k, ok := intConstOf(b.Y); ok && k == 0 && xo.K == "call" && xo.Name == "len" {
